@@ -59,6 +59,18 @@ def vx_list(relpath):
     return json.loads(p.stdout)
 
 
+def const_items(relpath, skip=()):
+    """Extraction requests for every module-level `const` of a source file (any module depth), so that code which starts
+    using a new named constant is still analysed. Returns (items, [(modpath, key)])."""
+    items, where = [], []
+    for it in vx_list(relpath):
+        if it["kind"] == "const" and it["name"] not in skip:
+            key = "const." + relpath + "::" + "::".join(it["modpath"] + [it["name"]])
+            items.append({"key": key, "file": relpath, "modpath": it["modpath"], "kind": "const", "name": it["name"], "rules": ["attrs", "const_static"]})
+            where.append((tuple(it["modpath"]), key))
+    return items, where
+
+
 # --------------------------------------------------------------------------- contracts
 class Clause:
     def __init__(self, cid, kind, text, props, fn=None):
